@@ -10,14 +10,14 @@ one() {
   n=$1; id=${n%%_*}; wt=$TMP/wt_$n
   alt=$(python3 -c "import json;print(' '.join(json.load(open('seeded/$n/meta.json')).get('also_checks',[])))" 2>/dev/null)
   git -C /repo worktree add -f --detach $wt HEAD >/dev/null 2>&1 || { echo "$n	$id	worktree-failed" > $TMP/$n.res; return; }
-  rsync -a --exclude .git --exclude '*.o' --exclude '*.lo' --exclude '.libs' --exclude 'test' --exclude 'examples' --exclude 'benchmarks' /repo/ $wt/
+  rsync -a --exclude .git --exclude '*.o' --exclude '*.lo' --exclude '.libs' /repo/ $wt/
   git -C $wt apply /verif/seeded/$n/patch.diff || { echo "$n	$id	patch-does-not-apply" > $TMP/$n.res; git -C /repo worktree remove --force $wt; return; }
   : > $TMP/$n.res
   for c in $id $alt; do
     t0=$(date +%s)
     PNC_REPO=$wt timeout 3000 ./check $c > $TMP/$n.$c.log 2>&1; rc=$?
-    v=$(grep -m1 '^VIOLATION' $TMP/$n.$c.log)
-    echo "$n	$c	rc=$rc	$v	$(( $(date +%s) - t0 ))s" >> $TMP/$n.res
+    nv=$(grep -c '^VIOLATION' $TMP/$n.$c.log); nn=$(grep -c '^VIOLATION.*no-failing-input-found' $TMP/$n.$c.log)
+    echo "$n	$c	rc=$rc	violations=$nv (of which no-failing-input-found: $nn)	$(tail -1 $TMP/$n.$c.log | sed 's/^.*obligations/obligations/')	$(( $(date +%s) - t0 ))s" >> $TMP/$n.res
   done
   git -C /repo worktree remove --force $wt
 }
@@ -26,5 +26,13 @@ for d in seeded/$G/; do n=$(basename $d); [ -f $d/patch.diff ] || continue
   one $n & N=$((N+1)); if [ $((N % 2)) = 0 ]; then wait; fi
 done; wait
 cat $TMP/*.res | sort > $OUT.new
-if [ "$G" = "*" ]; then mv $OUT.new $OUT; else cat $OUT.new; rm $OUT.new; fi
+if [ "$G" = "*" ]; then mv $OUT.new $OUT; else cat $OUT.new; python3 - $OUT $OUT.new <<'PY'
+import sys
+old=[l for l in open(sys.argv[1]) if l.strip()] if __import__('os').path.exists(sys.argv[1]) else []
+new=[l for l in open(sys.argv[2]) if l.strip()]
+keys={tuple(l.split('\t')[:2]) for l in new}
+out=[l for l in old if tuple(l.split('\t')[:2]) not in keys]+new
+open(sys.argv[1],'w').write(''.join(sorted(out)))
+PY
+rm $OUT.new; fi
 git -C /repo worktree prune; rm -rf $TMP
